@@ -12,7 +12,7 @@ impl<T: RealNumber> DenseMatrix<T> {
                 VERUS_ghost_iter.iter.end == self.values.len(),
                 forall|k: int| 0 <= k < i ==> self.values[k] == old(self).values[k].neg_spec(),
                 forall|k: int| i <= k < self.values.len() ==> self.values[k] == old(self).values[k],
-//@before self.values[i] = -self.values[i];
+//@loopbody 1
             proof { T::ops_total(); }
 //@exit
         proof {
